@@ -55,6 +55,25 @@ fn dispatch(f: &str, args: &[String]) -> String {
             let a = arg(args, 0);
             format!("{:?}", Message::from_shared_str(&a))
         }
+        "codec_decode_all" => {
+            // the real IRCLinesCodec over a buffer: decode until it reports that no complete frame is left
+            use tokio_util::codec::Decoder;
+            let a = arg(args, 0);
+            let mut codec = IRCLinesCodec::new_with_max_length(2000);
+            let mut buf = bytes::BytesMut::from(a.as_bytes());
+            let mut out: Vec<String> = vec![];
+            for _ in 0..16 {
+                match codec.decode(&mut buf) {
+                    Ok(Some(l)) => out.push(l),
+                    Ok(None) => break,
+                    Err(e) => {
+                        out.push(format!("<error {}>", e));
+                        break;
+                    }
+                }
+            }
+            format!("{:?}", out)
+        }
         "from_message" => {
             let a = arg(args, 0);
             match Message::from_shared_str(&a) {
